@@ -797,7 +797,7 @@ func runC13(args []string) int {
 	}
 
 	// ---- end to end --------------------------------------------------------------------------------------------------
-	nE2E := n / 6
+	nE2E := n / 5
 	if nE2E < 10 {
 		nE2E = 10
 	}
@@ -1181,6 +1181,71 @@ func runC13(args []string) int {
 		}
 		cw.add(fmt.Sprintf("CGaps %s %s %s %s %s %s %s %s", coqN(cid), c13CoqRs(ranges), c13CoqRs(base), c13CoqTRs(gaps0),
 			coqZ(step), coqZ(from), coqZ(until), c13CoqTRs(obs)))
+	}
+
+	// ---- streamSampleStream: the decoder callback (one reused variable, labels -> fingerprint, Append) ------------------------
+	for k := 0; k < n/2; k++ {
+		step := ovSteps[r.Intn(len(ovSteps))]
+		g0 := c13RoundTo(c13Base(r), step)
+		idx := c13PickSeries(r, hist)
+		if r.Intn(8) == 0 {
+			idx = append(idx, idx[0]) // the same label set twice in one response
+		}
+		var out []fpSeries
+		var elems []string
+		table := map[int]bool{}
+		var tab []string
+		var js []map[string]any
+		for _, ix := range idx {
+			var ts []int64
+			var tz []string
+			p := []float64{0.3, 0.6, 0.95}[r.Intn(3)]
+			for i := 0; i < 12; i++ {
+				if r.Float64() < p {
+					t := (g0 + int64(i)*step) / c13Ms
+					ts = append(ts, t)
+					tz = append(tz, coqZ(t*c13Ms))
+				}
+			}
+			if len(ts) == 0 {
+				continue // a series without samples does not occur in a response
+			}
+			m := c13Labels[ix].Map()
+			out = append(out, fpSeries{Metric: m, TsMs: ts})
+			ks := sortedKeys(m)
+			kv := make([]string, len(ks))
+			for i, kk := range ks {
+				kv[i] = coqPair(coqStr(kk), coqStr(m[kk]))
+			}
+			elems = append(elems, coqPair(coqList(kv), coqList(tz)))
+			if !table[ix] {
+				table[ix] = true
+				tab = append(tab, coqPair(coqList(kv), c13N(c13FPs[ix])))
+			}
+			js = append(js, map[string]any{"metric": m, "sample_ms": ts})
+		}
+		rec := httptest.NewRecorder()
+		fpWriteMatrix(rec, out)
+		body := rec.Body.Bytes()
+		cid := next()
+		res, err := promapi.VerifStreamSampleStream(body, time.Duration(step))
+		cs := map[string]any{"kind": "streamSampleStream", "step_ns": step, "response_series": js}
+		if err != nil {
+			rep.fail(strconv.Itoa(cid), "streamSampleStream rejects a well-formed matrix response: "+err.Error(), cs)
+			continue
+		}
+		obs := c13FromMTR(res)
+		names := map[int]bool{}
+		for _, o := range out {
+			names[len(o.Metric)] = true
+		}
+		rep.count(fmt.Sprintf("stream/%v/%d/%s", idx, step, body), len(out) >= 2 && len(names) >= 2)
+		hist(fmt.Sprintf("stream-series=%d", len(out)))
+		if keep {
+			cs["observed"] = obs
+			rep.Cases[strconv.Itoa(cid)] = cs
+		}
+		cw.add(fmt.Sprintf("CStream %s %s %s %s %s", coqN(cid), coqZ(step), coqList(elems), coqList(tab), c13CoqRs(obs)))
 	}
 
 	// ---- function-level pipeline -----------------------------------------------------------------------------------------
